@@ -19,7 +19,7 @@ META = dict(
     level='proof',
     technique='Coq proof (date reader/formatter model against the Gregorian calendar: round trips, soundness of acceptance, weekday, order) + differential correspondence of the extracted model against ledger, exhaustive over 1900..2199 in every accepted spelling',
     level_text='Theorems in coq/Properties/Properties_C14.v state, for all dates of boost\'s range 1400..9999 and all strings, that the model of parse_date (reader list regenerated from times.cc, separator rewriting, glibc strptime for %Y %m %d %y, boost date construction, re-format-and-compare, year inference) accepts every accepted spelling of a valid date as exactly that day, accepts nothing that does not spell a valid date (month 13, day 32, 30 February, 29 February of a non-leap year, trailing characters are errors), that formatting a read date gives the same day, that weekday and order are those of the Gregorian calendar, and that day number <-> civil date conversions are inverse bijections. The model is tied to the code by reading every day 1900-01-01..2199-12-31 in six spellings, every impossible month/day for leap, non-leap and century years, MM/DD under year directives and --now, range ends, malformed strings and random --input-date-format/--date-format pairs both in freshly built ledger and in the extracted model.',
-    level_note='Trusted: Coq kernel; extraction + OCaml driver and the python harness for the correspondence; glibc strptime/strftime modelled for the numeric directives (%Y %m %d %e %y %j %u %w, names %a %A %b %B in the C locale) and validated differentially; boost::gregorian date construction, day numbers and month arithmetic transcribed in Base/Calendar.v and proved equal to the era-based calendar. The MM/DD form is only exact under a year directive (or when the current month is not before the date\'s month); see finding F20.',
+    level_note='Trusted: Coq kernel; extraction + OCaml driver and the python harness for the correspondence; glibc strptime/strftime modelled for the numeric directives (%Y %m %d %e %y %j %u %w, names %a %A %b %B in the C locale) and validated differentially; boost::gregorian date construction, day numbers and month arithmetic transcribed in Base/Calendar.v and proved equal to the era-based calendar. The MM/DD form is only exact under a year directive (or when the current month is not before the date\'s month); see finding F32.',
     design_ref='DESIGN.md section 7 C14, section 6.5',
     assumptions=['TZ=UTC, LC_ALL=C (weekday and month names)',
                  'date strings contain no white space when written as transaction dates (the journal tokenizer cuts there)',
@@ -286,7 +286,7 @@ def judge_tx(t, impl, field_of=None):
                 if j and j[0] == 'other-day' and ds.kind == 'md-now' and k in ('xd', 'pd') and want[1:] == (2, 28):
                     p = parse_outf(f[0] if k == 'xd' else f[2])
                     if p and (p[0], p[1], p[2]) == (want[0], 2, 29):
-                        # the specific class of finding F20; any other shift keeps the generic key
+                        # the specific class of finding F32; any other shift keeps the generic key
                         j = ('feb-28-becomes-feb-29-of-previous-leap-year', j[1])
                 if j:
                     out.append(('shifted:%s:%s' % (ds.kind, j[0]), '%r read as a date prints as %r' % (ds.s, f), '|'.join(f), j[1]))
